@@ -2,7 +2,11 @@ use super::super::world::{Ev, Event, World};
 
 /// normalise a panic message to a stable site identifier
 pub fn panic_site(msg: &str) -> String {
-	let m: String = msg.chars().map(|c| if c.is_ascii_digit() { '#' } else { c }).take(80).collect();
+	let m: String = msg
+		.chars()
+		.map(|c| if c.is_ascii_digit() { '#' } else { c })
+		.take(80)
+		.collect();
 	m
 }
 
@@ -29,7 +33,11 @@ pub fn attempts(w: &World) -> Vec<Attempt<'_>> {
 				boot,
 			}),
 			Ev::AttemptEnd { cert, ok, .. } => {
-				if let Some(a) = out.iter_mut().rev().find(|a| &a.cert == cert && a.end.is_none() && a.boot == boot) {
+				if let Some(a) = out
+					.iter_mut()
+					.rev()
+					.find(|a| &a.cert == cert && a.end.is_none() && a.boot == boot)
+				{
 					a.end = Some(e);
 					a.ok = Some(*ok);
 				}
@@ -56,11 +64,21 @@ pub fn tx_send_seq(w: &World) -> BTreeMap<u64, u64> {
 /// index (into `attempts`) of the attempt that was active for `cert` at event `seq`
 pub fn attempt_at<'a>(atts: &'a [Attempt<'a>], seq: u64, cert: Option<&str>) -> Option<usize> {
 	atts.iter().position(|a| {
-		a.begin.seq <= seq && a.end.map(|e| e.seq >= seq).unwrap_or(true) && cert.map(|c| c == a.cert).unwrap_or(true)
+		a.begin.seq <= seq
+			&& a.end.map(|e| e.seq >= seq).unwrap_or(true)
+			&& cert.map(|c| c == a.cert).unwrap_or(true)
 	})
 }
 
-pub const RECOVERABLE: [&str; 7] = ["badNonce", "connection", "dns", "malformed", "rateLimited", "serverInternal", "tls"];
+pub const RECOVERABLE: [&str; 7] = [
+	"badNonce",
+	"connection",
+	"dns",
+	"malformed",
+	"rateLimited",
+	"serverInternal",
+	"tls",
+];
 
 pub const ACME_TYPES: [&str; 24] = [
 	"accountDoesNotExist",
@@ -116,10 +134,17 @@ pub fn last_class_in<'a>(w: &'a World, a: &Attempt<'a>) -> String {
 
 /// Does the plan inject only network/CA faults (C03's scope)?
 pub fn only_net_faults(w: &World) -> bool {
-	w.plan.faults.iter().all(|f| f.site == "net") && w.plan.config.hooks.iter().all(|h| h.exits.iter().all(|c| *c == 0))
+	w.plan.faults.iter().all(|f| f.site == "net")
+		&& w.plan
+			.config
+			.hooks
+			.iter()
+			.all(|h| h.exits.iter().all(|c| *c == 0))
 }
 
 pub fn hook_arg<'a>(argv: &'a [String], key: &str) -> Option<&'a str> {
 	let p = format!("{}=", key);
-	argv.iter().find(|a| a.starts_with(&p)).map(|a| &a[p.len()..])
+	argv.iter()
+		.find(|a| a.starts_with(&p))
+		.map(|a| &a[p.len()..])
 }
